@@ -83,7 +83,7 @@ include hre hrfn hns hempty
 
 theorem genericMode_K (nkp : List Str) (a : J) (hn : nkp.any m = false) :
     c.applyMode (c.genericMode false nkp a) a = a := by
-  cases a <;> simp only [genericMode] <;> (try split) <;> simp [scalar_unmatched c m hre nkp _ hn]
+  cases a <;> simp only [genericMode] <;> (try split) <;> simp [dollarMode, hrfn, scalar_unmatched c m hre nkp _ hn]
 
 theorem pScalarMode_K (kp : List Str) (a : J) (hn : kp.any m = false) :
     c.applyMode (c.pScalarMode false kp a) a = a := by
@@ -112,7 +112,7 @@ theorem subValScalarMode_K (k : Str) (nkp : List Str) (sk : Str) (sm : Option Me
   · cases a <;> simp [nsMode, hns]
   · rfl
   · cases a <;> simp [hs]
-  · simp [hs]
+  · cases a <;> simp [hs, hrfn]
 
 theorem aElemScalarMode_K (pk : Str) (kp : List Str) (a : J) (hn : (kp ++ [pk]).any m = false) :
     c.applyMode (c.aElemScalarMode false pk false kp a) a = a := by
